@@ -111,6 +111,19 @@ def gthRec (n : Nat) : Nat → Nat → M α → List α
       let xs := gthRec n fuel (k + 1) A'
       dotCol A' k xs :: xs
 
+/-! ### rounding-factor counts of the accuracy theorem (`QE.C02.gthSolve_accuracy`) -/
+
+/-- factors accumulated by the back-substituted block when `f` pivots remain and the active
+    matrix carries `e` factors: the reduced matrix carries `3e+m+3` (`m = f+1` terms in the pivot
+    row sum), its pivot column `2e+m+1`, a product one more, the sum of at most `m` products `m` more. -/
+def xerr : Nat → Nat → Nat
+  | 0, _ => 0
+  | f + 1, e => xerr f (3 * e + (f + 1) + 3) + (2 * e + (f + 1) + 1) + 1 + (f + 1)
+
+/-- `E(n)`: every component of the rounded `gth_solve` result carries at most `E(n)` factors in
+    `[1/(1+u), 1+u]` (normalising sum: `n` more; final division: both operands and one rounding). -/
+def errBound (n : Nat) : Nat := 2 * xerr (n - 1) 0 + n + 1
+
 /-! ### recurrent classes and `MarkovChain.stationary_distributions` -/
 
 /-- edge `i → j` of the digraph `DiGraph(P)`: a non-zero (for `P ≥ 0`: positive) entry -/
@@ -220,6 +233,10 @@ def handle (toks : List String) : String :=
             " q=" ++ showMat showRat (dq.map (·.2)) ++
             " closed=" ++ showBool (dq.all fun (C, _) => closedB n Mq C)
     | _, _, _ => "bad-op"
+  | "ebound" :: r =>
+    match kvNat r "n" with
+    | some n => if n = 0 then "bad-op" else toString (errBound n)
+    | none => "bad-op"
   | "classes" :: r =>
     match kvNat r "n", kvRatMat r "P" with
     | some n, some Pq =>
